@@ -38,6 +38,7 @@ structure Tables where
   sdlEmptyTokenSpins : Bool
   exeVarTypeOptional : Bool
   opFallbackAnyName : Bool
+  fieldPosAfterLookahead : Bool
 
 /-- snapshot of `Gen/Tables.lean` at the pinned commit -/
 def pinnedValueTbl : ValueText.Tbl :=
@@ -164,6 +165,6 @@ def pinnedTables : Tables :=
     outTime := Pinned.coerceOutTime, inTime := Pinned.coerceInTime,
     introTable := pinnedIntroTable,
     locateTable := [(.enum, "ENUM"), (.iface, "INTERFACE"), (.input, "INPUT_OBJECT"), (.object, "OBJECT"), (.scalar, "SCALAR"), (.union, "UNION")],
-    metaLiteral := "Query", sdlEmptyTokenSpins := true, exeVarTypeOptional := true, opFallbackAnyName := true }
+    metaLiteral := "Query", sdlEmptyTokenSpins := true, exeVarTypeOptional := true, opFallbackAnyName := true, fieldPosAfterLookahead := true }
 
 end Ggql.Driver
